@@ -711,6 +711,8 @@ _P = [
     ("type-checking and main blocks", "import typing\nfrom typing import TYPE_CHECKING\nif TYPE_CHECKING:\n    import os\nelse:\n    os = None\nif typing.TYPE_CHECKING:\n    import sys\nx = 1\nif __name__ == '__main__':\n    x = 2\nelse:\n    x = 3\n", {}, [
         ("line", 0, 4, False, "the TYPE_CHECKING block"), ("line", 0, 6, True, "the else branch of the TYPE_CHECKING block (it runs)"), ("line", 0, 8, False, "the typing.TYPE_CHECKING block"),
         ("line", 0, 9, True, "the statement after the blocks"), ("line", 0, 11, False, "the __main__ block"), ("line", 0, 13, True, "the else branch of the __main__ block (it runs on import)")]),
+    ("marker text inside a string literal", "def f():\n    MSG = 'use # pragma: no cover to exclude'\n    return MSG\ndef g():  # pragma: no cover\n    return 1\n", {}, [
+        ("line", 1, 2, True, "an executed line whose string literal contains the marker text"), ("scope", 1, None, True, "its function"), ("scope", 4, None, False, "a function with a real marker comment")]),
     ("pragma flag off", "def a():  # pragma: no cover\n    return 1\ndef b():  # pynguin: no cover\n    return 2\n", {"enable_inline_pragma_no_cover": False}, [
         ("scope", 1, None, True, "`# pragma: no cover` with the pragma flag off"), ("scope", 3, None, False, "`# pynguin: no cover` with the pragma flag off")]),
     ("pynguin flag off", "def a():  # pragma: no cover\n    return 1\ndef b():  # pynguin: no cover\n    return 2\n", {"enable_inline_pynguin_no_cover": False}, [
@@ -731,9 +733,14 @@ def _pipeline(ctx, repo) -> None:
     scope_node = tuple(getattr(ast, n.attr) for n in ast.walk(tmod.assigns["SCOPE_CLASSES"]) if isinstance(n, ast.Attribute))
     for label, src, conf, asks in _P:
         tree = ast.parse(src)
-        it = peval.Interp(resolver=peval.repo_resolver(repo), class_resolver=cres, native_types=(ast.AST,), max_steps=3000000,
-                          consts={"ast": ast, "_ast": ast, "TryStar": ast.TryStar, "ScopeNode": scope_node, "SCOPE_CLASSES": scope_node},
-                          externs={"cast": lambda _t, v: v, "read_module_ast": lambda _p, tree=tree, src=src: (tree, src)})
+        import io as _io
+        import tokenize as _tokenize
+        import types as _types
+
+        it = peval.Interp(resolver=peval.repo_resolver(repo), class_resolver=cres, native_types=(ast.AST, _types.ModuleType, _io.StringIO, _tokenize.TokenInfo), max_steps=3000000,
+                          consts={"ast": ast, "_ast": ast, "TryStar": ast.TryStar, "ScopeNode": scope_node, "SCOPE_CLASSES": scope_node, "tokenize": _tokenize, "io": _io, "tokenize.COMMENT": _tokenize.COMMENT},
+                          externs={"cast": lambda _t, v: v, "read_module_ast": lambda _p, tree=tree, src=src: (tree, src),
+                                   "tokenize.generate_tokens": lambda rl: peval._guard(lambda: list(_tokenize.generate_tokens(rl))), "io.StringIO": _io.StringIO})
         cfgo = peval.Obj("to_cover_config", fields={"only_cover": list(conf.get("only_cover", [])), "no_cover": list(conf.get("no_cover", [])),
                                                      "enable_inline_pynguin_no_cover": conf.get("enable_inline_pynguin_no_cover", True), "enable_inline_pragma_no_cover": conf.get("enable_inline_pragma_no_cover", True)})
         try:
